@@ -104,9 +104,14 @@ def collect_obs(text, hs):
                     bodies.append(hb)
                     frontier.append(hb)
         obs, covers = [], []
+        texts = info.setdefault("ob_text", {})
         for b in bodies:
             for m in re.finditer(r'"ob:([A-Za-z0-9_.\-{}]+)', b):
                 obs.append(m.group(1))
+                # the asserted expression, for the evidence file
+                k = b.rfind("assert!(", 0, m.start())
+                if k >= 0 and m.group(1) not in texts:
+                    texts[m.group(1)] = re.sub(r"\s+", " ", b[k + 8:m.start()]).rstrip(" ,")[:260]
             for m in re.finditer(r'"cover:([A-Za-z0-9_.\-]+)', b):
                 covers.append(m.group(1))
         info["obs"] = obs
@@ -347,7 +352,7 @@ def fill_unit(u, r, per, rc, out, tier):
         for ob in names:
             props = u.get("ob_props", {}).get(ob, default_props)
             obs[ob] = {"name": ob + q, "unit": name, "backend": "kani", "props": props, "fn": u.get("fn_of", {}).get(h, h), "harness": h,
-                       "status": "discharged", "bounded": info["bounded"], "clause": "assertion(s) tagged ob:%s in harness %s" % (ob, h), "solver_s": 0.0, "tier": htier}
+                       "status": "discharged", "bounded": info["bounded"], "clause": "harness %s asserts: %s" % (h, info.get("ob_text", {}).get(ob, "(see ob:%s)" % ob)), "solver_s": 0.0, "tier": htier}
         obs[safety] = {"name": safety, "unit": name, "backend": "kani", "props": u.get("safety_overrides", {}).get(h, safety_props), "fn": u.get("fn_of", {}).get(h, h), "harness": h,
                        "status": "discharged", "bounded": info["bounded"], "tier": htier,
                        "clause": "all CBMC checks (overflow, bounds, unwrap/expect, division, shifts, assert!, unwinding) reachable from harness %s" % h, "solver_s": 0.0}
@@ -393,7 +398,8 @@ def fill_unit(u, r, per, rc, out, tier):
             # vacuity: all covers of this harness satisfied
             for c in info["covers"]:
                 st = blk["covers"].get(c)
-                r["covers"][h + ":" + c] = st or "not reported"
+                cs0 = blk["cover_sat"]
+                r["covers"][h + ":" + c] = st or ("SATISFIED" if cs0 and cs0[0] == cs0[1] else "not reported")
             if info["covers"]:
                 cs = blk["cover_sat"]
                 if cs is None or cs[0] != cs[1]:
